@@ -143,6 +143,17 @@ def bounded(ctx, b):
                         n_.content = "edited"
                         n_.position = (1, 1)
                     first.get_captions(lang).append(copy.deepcopy(c0))
+                # ... nor does editing, IN PLACE, the dictionaries a result is made of (style nodes' content, captions' styles):
+                # a dictionary handed out by a reader belongs to that result alone
+                for l_ in first.get_languages():
+                    for cp_ in first.get_captions(l_):
+                        if isinstance(cp_.style, dict):
+                            cp_.style["edited in place"] = True
+                        for n_ in cp_.nodes:
+                            if isinstance(n_.content, dict):
+                                for k_ in list(n_.content):
+                                    n_.content[k_] = "edited in place"
+                                n_.content["injected"] = True
                 # unrelated activity in the process: every writer, on a copy of this result and on a set of its own with
                 # concurrent captions and line breaks (the single-position / legacy writers merge and reposition those)
                 from pycaption import CaptionSet, CaptionList, Caption
